@@ -12,7 +12,12 @@
    column or a streaming-Series grouper.  rolling / window(n) / window(value) / windowed groupby / ewm are not
    modelled here (C07/C11 models): for them C12 rests on the implementation-level cut test of check_c12.py. *)
 From Coq Require Import List ZArith QArith Qcanon Bool Arith.
-From SZ Require Import DF.Frames DF.Agg DF.GroupBy DF.AggProofs DF.GroupByProofs DF.Resume.
+From SZ Require Import DF.Frames.
+From SZ Require Import DF.Agg.
+From SZ Require Import DF.GroupBy.
+From SZ Require Import DF.AggProofs.
+From SZ Require Import DF.GroupByProofs.
+From SZ Require Import DF.Resume.
 Import ListNotations.
 Close Scope Qc_scope. Close Scope Q_scope. Close Scope Z_scope. Open Scope nat_scope.
 
